@@ -8,8 +8,8 @@ the plain sequential loop (`sumS`).  Owned vectors (`r`, `w`, `y`) are always co
 
 Everything follows the Rust control flow: `cdCoord` is the body of `for j in 0..n_features`,
 `cdSweep` one pass of the `while`, `cdLoop` the `while` with fuel `max_steps`,
-`dualityGap` the function of the same name, `eps` is `F::EPSILON` (the default tolerance of
-`abs_diff_eq!`).  Core Lean only.
+`dualityGap` the function of the same name, `eps` is `F::EPSILON` (the default tolerance of the one
+`abs_diff_eq!(w_max, 0)` left in each loop).  Core Lean only.
 -/
 import LinfaSpec.Model.Scalar
 
@@ -76,31 +76,34 @@ structure CdState (α : Type) where
   wMax : α
   dwMax : α
 
-/-- body of `for j in 0..n_features` in `coordinate_descent` -/
-def cdCoord (contig : Bool) (eps thr denAdd : α) (st : CdState α) (j : Nat) (cj : List α) (nrm : α) :
+/-- body of `for j in 0..n_features` in `coordinate_descent`.  The three guards compare with zero exactly
+(`norm_cols_x[j] == 0`, `old_w_j != 0`, `w[j] != 0`; written `absS x ≤ 0`, which is the same test on floats
+including NaN, and `x = 0` over an ordered field) -/
+def cdCoord (contig : Bool) (thr denAdd : α) (st : CdState α) (j : Nat) (cj : List α) (nrm : α) :
     CdState α :=
-  if absS nrm ≤ eps then st else
+  if absS nrm ≤ 0 then st else
   let old := st.w.getD j 0
-  let r1 := if absS old ≤ eps then st.r else axpy old cj st.r
+  let r1 := if absS old ≤ 0 then st.r else axpy old cj st.r
   let tmp := dotC contig cj r1
   let wj := softThreshold tmp thr (nrm + denAdd)
-  let r2 := if absS wj ≤ eps then r1 else axpy (-wj) cj r1
+  let r2 := if absS wj ≤ 0 then r1 else axpy (-wj) cj r1
   { w := st.w.set j wj, r := r2, dwMax := maxS st.dwMax (absS (wj - old)), wMax := maxS st.wMax (absS wj) }
 
-def cdSweepGo (contig : Bool) (eps thr denAdd : α) : Nat → List (List α) → List α → CdState α → CdState α
-  | j, c :: C, nrm :: ns, st => cdSweepGo contig eps thr denAdd (j + 1) C ns (cdCoord contig eps thr denAdd st j c nrm)
+def cdSweepGo (contig : Bool) (thr denAdd : α) : Nat → List (List α) → List α → CdState α → CdState α
+  | j, c :: C, nrm :: ns, st => cdSweepGo contig thr denAdd (j + 1) C ns (cdCoord contig thr denAdd st j c nrm)
   | _, _, _, st => st
 
 /-- one pass of the `while` loop body up to `n_steps += 1` -/
-def cdSweep (contig : Bool) (eps thr denAdd : α) (C : List (List α)) (norms w r : List α) : CdState α :=
-  cdSweepGo contig eps thr denAdd 0 C norms { w := w, r := r, wMax := 0, dwMax := 0 }
+def cdSweep (contig : Bool) (thr denAdd : α) (C : List (List α)) (norms w r : List α) : CdState α :=
+  cdSweepGo contig thr denAdd 0 C norms { w := w, r := r, wMax := 0, dwMax := 0 }
 
-/-- the `while n_steps < max_steps` loop (fuel = remaining steps) -/
+/-- the `while n_steps < max_steps` loop (fuel = remaining steps); `eps` is `F::EPSILON`, the default tolerance of
+the one remaining `abs_diff_eq!(w_max, 0)` -/
 def cdLoop (contig : Bool) (eps thr denAdd : α) (C : List (List α)) (norms y : List α)
     (n tol tolS l1r pen : α) (maxSteps : Nat) : Nat → Nat → List α → List α → α → List α × α × Nat
   | 0, steps, w, _, gap => (w, gap, steps)
   | fuel + 1, steps, w, r, gap =>
-    let st := cdSweep contig eps thr denAdd C norms w r
+    let st := cdSweep contig thr denAdd C norms w r
     let steps' := steps + 1
     if (steps' == maxSteps - 1) || decide (absS st.wMax ≤ eps) || decide (st.dwMax / st.wMax < tol) then
       let g := dualityGap contig C y st.w st.r l1r pen n
@@ -144,6 +147,9 @@ structure EnetParams (α : Type) where
 /-- `ElasticNetParamsBase::new()`; `tol0` is `F::cast(1e-4)` -/
 def EnetParams.new (tol0 : α) : EnetParams α :=
   { penalty := 1, l1Ratio := half, withIntercept := true, maxIterations := 1000, tolerance := tol0 }
+
+/-- `impl Default for ElasticNetParamsBase`: `Self::new()` -/
+def EnetParams.default (tol0 : α) : EnetParams α := EnetParams.new tol0
 
 /-- `ElasticNet::ridge()` / `MultiTaskElasticNet::ridge()` : `new().l1_ratio(0)` -/
 def EnetParams.ridge (tol0 : α) : EnetParams α := { EnetParams.new tol0 with l1Ratio := 0 }
@@ -228,23 +234,24 @@ structure BcdState (α : Type) where
   wMax : α
   dwMax : α
 
-/-- body of `for j in 0..n_features` in `block_coordinate_descent` (`t` tasks) -/
-def bcdCoord (contig : Bool) (t : Nat) (eps thr denAdd : α) (st : BcdState α) (j : Nat) (cj : List α)
+/-- body of `for j in 0..n_features` in `block_coordinate_descent` (`t` tasks); exact comparisons with zero as in
+`cdCoord` -/
+def bcdCoord (contig : Bool) (t : Nat) (thr denAdd : α) (st : BcdState α) (j : Nat) (cj : List α)
     (nrm : α) : BcdState α :=
-  if absS nrm ≤ eps then st else
+  if absS nrm ≤ 0 then st else
   let old := st.w.getD j []
   let nOld := norm2U old
-  let r1 := if absS nOld ≤ eps then st.r else rankOne false cj old st.r
+  let r1 := if absS nOld ≤ 0 then st.r else rankOne false cj old st.r
   let tmp := (colsOf t r1).map fun rc => dotC (contig && t == 1) rc cj
   let new := (blockSoft tmp thr).map (· / (nrm + denAdd))
   let nNew := norm2U new
-  let r2 := if absS nNew ≤ eps then r1 else rankOne true cj new r1
+  let r2 := if absS nNew ≤ 0 then r1 else rankOne true cj new r1
   { w := st.w.set j new, r := r2, dwMax := maxS st.dwMax (absS (nNew - nOld)), wMax := maxS st.wMax nNew }
 
-def bcdSweepGo (contig : Bool) (t : Nat) (eps thr denAdd : α) :
+def bcdSweepGo (contig : Bool) (t : Nat) (thr denAdd : α) :
     Nat → List (List α) → List α → BcdState α → BcdState α
   | j, c :: C, nrm :: ns, st =>
-      bcdSweepGo contig t eps thr denAdd (j + 1) C ns (bcdCoord contig t eps thr denAdd st j c nrm)
+      bcdSweepGo contig t thr denAdd (j + 1) C ns (bcdCoord contig t thr denAdd st j c nrm)
   | _, _, _, st => st
 
 /-- `dual_norm_xta` of `duality_gap_mtl`: the largest row norm of `XᵀR − l2·W` -/
@@ -276,7 +283,7 @@ def bcdLoop (contig : Bool) (t : Nat) (eps thr denAdd : α) (C : List (List α))
     Nat → Nat → List (List α) → List (List α) → α → List (List α) × α × Nat
   | 0, steps, w, _, gap => (w, gap, steps)
   | fuel + 1, steps, w, r, gap =>
-    let st := bcdSweepGo contig t eps thr denAdd 0 C norms { w := w, r := r, wMax := 0, dwMax := 0 }
+    let st := bcdSweepGo contig t thr denAdd 0 C norms { w := w, r := r, wMax := 0, dwMax := 0 }
     let steps' := steps + 1
     if (steps' == maxSteps - 1) || decide (absS st.wMax ≤ eps) || decide (st.dwMax / st.wMax < tol) then
       let g := dualityGapMtl t C Y st.w st.r l1r pen n
